@@ -178,6 +178,11 @@ def twopass_rules():
     R.append(('del_before_x', Rule(0, [ab, xy], A('DELETE', 'NEXT', 'NEXT', 'RET_ZERO'))))                                                # ab x > _ @2 (only inserted / substituted glyphs survive)
     R.append(('insert_between_keep', Rule(0, [ab, ab], A('NEXT', 'INSERT', 'PUT_GLYPH', 0, 1, 'NEXT', 'NEXT', 'RET_ZERO'))))
     R.append(('attach_then_del_parent', Rule(0, [anyg, anyg], A('NEXT') + att(-1) + push(-1) + A('POP_RET'))))
+    # a slot that is CHANGED and then REFERENCED by a later item of the same rule (the loader plants a TEMP_COPY of it: a whole-slot copy that is freed after the rule);
+    # after an attaching rule the changed slot has children / a parent, which the copy must not take away
+    R.append(('copy_prev_after_glyph', Rule(0, [anyg, anyg], A('PUT_GLYPH', 0, 0, 'NEXT', 'PUT_COPY', 0xFF, 'NEXT', 'RET_ZERO'))))
+    R.append(('subs_prev_after_glyph', Rule(0, [anyg, ab], A('PUT_GLYPH', 0, 1, 'NEXT', 'PUT_SUBS', 0xFF, 0, 3, 0, 2, 'NEXT', 'RET_ZERO'))))
+    R.append(('assoc_then_read_prev', Rule(0, [anyg, anyg], A('ASSOC', 1, 0, 'NEXT', 'PUSH_SLOT_ATTR', SLAT['advX'], 0xFF, 'ATTR_SET', SLAT['shiftY'], 'NEXT', 'RET_ZERO'))))
     return R
 
 
